@@ -1,0 +1,44 @@
+//go:build verif
+
+package packfile
+
+// Contracts for the gvc verifier (/verif). Comment-only; never compiled into
+// a normal build.
+
+//gvc:func ValidateOFSDeltaBase
+//gvc:  props C09
+//gvc:  theory bv
+//gvc:  requires nonneg: deltaOffset >= 0
+//gvc:  ensures git: (result == nil) == spec_ofs_base_ok(deltaOffset, negativeOffset)
+//gvc:  ensures kind: result != nil ==> is(result, ErrMalformedPackfile)
+//gvc:end
+
+//gvc:func isCopyFromSrc
+//gvc:  props C06
+//gvc:  theory bv
+//gvc:  ensures e: result == (cmd & 0x80 != 0)
+//gvc:end
+
+//gvc:func isCopyFromDelta
+//gvc:  props C06
+//gvc:  theory bv
+//gvc:  ensures e: result == (cmd & 0x80 == 0 && cmd != 0)
+//gvc:end
+
+//gvc:func invalidSize
+//gvc:  props C06
+//gvc:  theory bv
+//gvc:  ensures e: result == (sz > remaining)
+//gvc:end
+
+//gvc:func sumOverflows
+//gvc:  props C06
+//gvc:  theory bv
+//gvc:  ensures e: result == (a + b > 0xffffffffffffffff)
+//gvc:end
+
+//gvc:func invalidOffsetSize
+//gvc:  props C06
+//gvc:  theory bv
+//gvc:  ensures e: result == (offset + sz > srcSz)
+//gvc:end
